@@ -47,7 +47,7 @@ func smokeRun(t *testing.T, mode string, seed uint64) (Result, []int) {
 				}
 			})
 		}
-		e.WaitClients()
+		e.WaitClients(time.Minute)
 		e.Settle(10 * time.Second)
 		StopNode(e, n, true, time.Minute)
 	})
